@@ -42,10 +42,10 @@ def lastOcc (P : Nat → Bool) (L : Nat) : Option Nat := prevOcc P L
 def slotAt (s : Slots) (q : Nat) : Option Op := (s[q]?).join
 
 /-- slot `q` holds an op -/
-def occ (s : Slots) (q : Nat) : Bool := (slotAt s q).isSome
+def occAt (s : Slots) (q : Nat) : Bool := (slotAt s q).isSome
 
 /-- slot `q` holds an op acting on variable `v` -/
-def occV (s : Slots) (v : Nat) (q : Nat) : Bool :=
+def occVAt (s : Slots) (v : Nat) (q : Nat) : Bool :=
   match slotAt s q with
   | some op => op.vars.contains v
   | none => false
@@ -60,10 +60,10 @@ structure PRel where
 def relAt (s : Slots) (v : Nat) (q : Nat) : PRel :=
   ⟨q, match slotAt s q with | some op => op.vars.idxOf v | none => 0⟩
 
-def prevRel (s : Slots) (v q : Nat) : Option PRel := (prevOcc (occV s v) q).map (relAt s v)
-def nextRel (s : Slots) (v q : Nat) : Option PRel := (nextOcc (occV s v) s.length q).map (relAt s v)
-def firstRel (s : Slots) (v : Nat) : Option PRel := (firstOcc (occV s v) s.length).map (relAt s v)
-def lastRel (s : Slots) (v : Nat) : Option PRel := (lastOcc (occV s v) s.length).map (relAt s v)
+def prevRel (s : Slots) (v q : Nat) : Option PRel := (prevOcc (occVAt s v) q).map (relAt s v)
+def nextRel (s : Slots) (v q : Nat) : Option PRel := (nextOcc (occVAt s v) s.length q).map (relAt s v)
+def firstRel (s : Slots) (v : Nat) : Option PRel := (firstOcc (occVAt s v) s.length).map (relAt s v)
+def lastRel (s : Slots) (v : Nat) : Option PRel := (lastOcc (occVAt s v) s.length).map (relAt s v)
 
 def zipOpt (a : Option α) (b : Option β) : Option (α × β) :=
   match a, b with
@@ -71,7 +71,7 @@ def zipOpt (a : Option α) (b : Option β) : Option (α × β) :=
   | _, _ => none
 
 /-- positions holding an op, increasing -/
-def occPositions (s : Slots) : List Nat := (List.range s.length).filter (occ s)
+def occPositions (s : Slots) : List Nat := (List.range s.length).filter (occAt s)
 
 /-! ## the container -/
 
@@ -452,7 +452,7 @@ def fillArgsAtP (c : FastOps) (p : Nat) (a : Cursor) : Cursor :=
 def fillArgsWithHintSpec (c : FastOps) (p : Nat) (a : Cursor) (vars : List Nat) : Cursor :=
   let s := c.abs
   let prels := vars.map (fun v => prevRel s v p)
-  { a with lastP := prevOcc (occ s) p
+  { a with lastP := prevOcc (occAt s) p
            lastVars := (prels.zipIdx.foldl (fun (l : List (Option Nat)) xi =>
               match xi.1 with | some pr => l.set xi.2 (some pr.p) | none => l) a.lastVars)
            lastRels := (prels.zipIdx.foldl (fun (l : List (Option Nat)) xi =>
@@ -636,13 +636,13 @@ end FastOps
 
 def canonNode (s : Slots) (q : Nat) (op : Op) : Node :=
   { op := op
-    previousP := prevOcc (occ s) q
-    nextP := nextOcc (occ s) s.length q
+    previousP := prevOcc (occAt s) q
+    nextP := nextOcc (occAt s) s.length q
     previousForVars := op.vars.map (fun v => prevRel s v q)
     nextForVars := op.vars.map (fun v => nextRel s v q) }
 
 def canonEnds (s : Slots) : Option (Nat × Nat) :=
-  zipOpt (firstOcc (occ s) s.length) (lastOcc (occ s) s.length)
+  zipOpt (firstOcc (occAt s) s.length) (lastOcc (occAt s) s.length)
 
 def canonVarEnd (s : Slots) (v : Nat) : Option (PRel × PRel) :=
   zipOpt (firstRel s v) (lastRel s v)
@@ -657,7 +657,7 @@ def canon (nvars : Nat) (nb : Option Nat) (s : Slots) : FastOps :=
 /-- the scan cursor at `p` (what `fill_args_at_p(p, get_empty_args(All))` must produce), except
 `unfilled` which is bookkeeping of the walk -/
 def cursorByScan (nvars : Nat) (s : Slots) (p : Nat) (unfilled : Nat) : Cursor :=
-  { lastP := prevOcc (occ s) p
+  { lastP := prevOcc (occAt s) p
     lastVars := (List.range nvars).map (fun v => (prevRel s v p).map (·.p))
     lastRels := (List.range nvars).map (fun v => (prevRel s v p).map (·.relv))
     subvarMapping := none
